@@ -22,7 +22,7 @@ ASSUMPTIONS = [
     'unpivot key/value target names are disjoint from the kept field names; every spec entry defines every extra key',
     'unpivot regex names are patterns that cannot match the empty string',
 ]
-BUDGET = {'quick': dict(examples=2400, shards=8, seconds=70),
+BUDGET = {'quick': dict(examples=4800, shards=16, seconds=70),
           'thorough': dict(examples=200000, shards=16, seconds=1200)}
 
 RES = ['res1', 'res2']
